@@ -72,7 +72,24 @@ func main() {
 			return nil
 		})
 	}
-	// 3. instrumented sources
+	// 3. instrumented sources (first pass: channel-typed names)
+	for _, pkg := range os.Args[5:] {
+		ents, err := os.ReadDir(filepath.Join(repo, pkg))
+		if err != nil {
+			die("%v", err)
+		}
+		for _, e := range ents {
+			n := e.Name()
+			if e.IsDir() || !strings.HasSuffix(n, ".go") || strings.HasSuffix(n, "_test.go") {
+				continue
+			}
+			f, err := parser.ParseFile(token.NewFileSet(), filepath.Join(repo, pkg, n), nil, 0)
+			if err != nil {
+				die("%v", err)
+			}
+			collectChanNames(f)
+		}
+	}
 	for _, pkg := range os.Args[5:] {
 		dir := filepath.Join(repo, pkg)
 		ents, err := os.ReadDir(dir)
@@ -143,6 +160,65 @@ func lockCall(ce *ast.CallExpr) (se *ast.SelectorExpr, kind string) {
 	return nil, ""
 }
 
+// chanNames holds identifiers (fields, variables, parameters) declared with a
+// channel type anywhere in the simulated packages; `for x := range <name>` over
+// one of them gets a scheduling point at the top of its body.
+var chanNames = map[string]bool{}
+
+func collectChanNames(f *ast.File) {
+	ast.Inspect(f, func(n ast.Node) bool {
+		switch n := n.(type) {
+		case *ast.Field:
+			if _, ok := n.Type.(*ast.ChanType); ok {
+				for _, id := range n.Names {
+					chanNames[id.Name] = true
+				}
+			}
+		case *ast.ValueSpec:
+			if _, ok := n.Type.(*ast.ChanType); ok {
+				for _, id := range n.Names {
+					chanNames[id.Name] = true
+				}
+			}
+		case *ast.AssignStmt:
+			for i, r := range n.Rhs {
+				if ce, ok := r.(*ast.CallExpr); ok {
+					if id, ok := ce.Fun.(*ast.Ident); ok && id.Name == "make" && len(ce.Args) > 0 {
+						if _, ok := ce.Args[0].(*ast.ChanType); ok && i < len(n.Lhs) {
+							switch l := n.Lhs[i].(type) {
+							case *ast.Ident:
+								chanNames[l.Name] = true
+							case *ast.SelectorExpr:
+								chanNames[l.Sel.Name] = true
+							}
+						}
+					}
+				}
+			}
+		}
+		return true
+	})
+}
+
+func terminalName(e ast.Expr) string {
+	switch x := e.(type) {
+	case *ast.Ident:
+		return x.Name
+	case *ast.SelectorExpr:
+		return x.Sel.Name
+	}
+	return ""
+}
+
+func isPkgCall(ce *ast.CallExpr, pkg, fn string) bool {
+	se, ok := ce.Fun.(*ast.SelectorExpr)
+	if !ok || se.Sel.Name != fn {
+		return false
+	}
+	id, ok := se.X.(*ast.Ident)
+	return ok && id.Name == pkg
+}
+
 func rewriteFile(fset *token.FileSet, f *ast.File, rel string, stats map[string]int) bool {
 	changed := false
 	tmp := 0
@@ -150,6 +226,13 @@ func rewriteFile(fset *token.FileSet, f *ast.File, rel string, stats map[string]
 		p := fset.Position(n.Pos())
 		return fmt.Sprintf("%s:%d", rel, p.Line)
 	}
+	selectComm := map[ast.Stmt]bool{}
+	ast.Inspect(f, func(n ast.Node) bool {
+		if cc, ok := n.(*ast.CommClause); ok && cc.Comm != nil {
+			selectComm[cc.Comm] = true
+		}
+		return true
+	})
 	astutil.Apply(f, nil, func(c *astutil.Cursor) bool {
 		switch n := c.Node().(type) {
 		case *ast.SendStmt:
@@ -159,10 +242,65 @@ func rewriteFile(fset *token.FileSet, f *ast.File, rel string, stats map[string]
 			c.Replace(&ast.ExprStmt{X: call("Send", str("send@"+pos(n)), n.Chan, n.Value)})
 			stats["send"]++
 			changed = true
+		case *ast.UnaryExpr:
+			if n.Op != token.ARROW {
+				return true
+			}
+			// receives that are the Comm of a select clause are handled by the select rewrite
+			switch par := c.Parent().(type) {
+			case *ast.CommClause:
+				if c.Name() == "Comm" {
+					return true
+				}
+			case *ast.ExprStmt:
+				if selectComm[par] {
+					return true
+				}
+			case *ast.AssignStmt:
+				if selectComm[par] {
+					return true
+				}
+				if len(par.Lhs) == 2 && len(par.Rhs) == 1 {
+					c.Replace(call("Recv2", str("recv@"+pos(n)), n.X))
+					stats["recv"]++
+					changed = true
+					return true
+				}
+			}
+			c.Replace(call("Recv", str("recv@"+pos(n)), n.X))
+			stats["recv"]++
+			changed = true
+		case *ast.RangeStmt:
+			if nm := terminalName(n.X); nm != "" && chanNames[nm] && n.Value == nil {
+				n.Body.List = append([]ast.Stmt{&ast.ExprStmt{X: call("Yield", str("range@"+pos(n)))}}, n.Body.List...)
+				stats["range-chan"]++
+				changed = true
+			}
 		case *ast.ExprStmt:
 			ce, ok := n.X.(*ast.CallExpr)
 			if !ok {
 				return true
+			}
+			if isPkgCall(ce, "time", "Sleep") && len(ce.Args) == 1 {
+				c.Replace(&ast.ExprStmt{X: call("Sleep", str("sleep@"+pos(n)), ce.Args[0])})
+				stats["sleep"]++
+				changed = true
+				return true
+			}
+			if se, ok := ce.Fun.(*ast.SelectorExpr); ok && se.Sel.Name == "Wait" && len(ce.Args) == 0 {
+				if _, isBlk := c.Parent().(*ast.BlockStmt); isBlk {
+					c.InsertAfter(&ast.ExprStmt{X: call("Yield", str("waited@"+pos(n)))})
+					stats["wait"]++
+					changed = true
+					return true
+				}
+				if _, isCase := c.Parent().(*ast.CaseClause); isCase {
+					c.InsertAfter(&ast.ExprStmt{X: call("Yield", str("waited@"+pos(n)))})
+					stats["wait"]++
+					changed = true
+					return true
+				}
+				die("%s: Wait() statement in unsupported position", pos(n))
 			}
 			se, kind := lockCall(ce)
 			switch kind {
@@ -186,22 +324,57 @@ func rewriteFile(fset *token.FileSet, f *ast.File, rel string, stats map[string]
 				die("%s: deferred %s not supported", pos(n), kind)
 			}
 		case *ast.GoStmt:
+			gv := fmt.Sprintf("__vg%d", tmp)
+			tmp++
+			capture := &ast.AssignStmt{Lhs: []ast.Expr{ast.NewIdent(gv)}, Tok: token.DEFINE, Rhs: []ast.Expr{call("Group")}}
 			if fl, ok := n.Call.Fun.(*ast.FuncLit); ok {
 				fl.Body.List = append([]ast.Stmt{
 					&ast.DeferStmt{Call: call("Recover", str("go@"+pos(n)))},
-					&ast.ExprStmt{X: call("Yield", str("go@"+pos(n)))}}, fl.Body.List...)
+					&ast.ExprStmt{X: call("Start", str("go@"+pos(n)), ast.NewIdent(gv))}}, fl.Body.List...)
+				if _, labelled := c.Parent().(*ast.LabeledStmt); labelled {
+					die("%s: labelled go statement not supported", pos(n))
+				}
+				c.Replace(&ast.BlockStmt{List: []ast.Stmt{capture, n}})
 				stats["go"]++
 				changed = true
 			} else {
+				for _, a := range n.Call.Args {
+					if terminalName(a) == "" {
+						die("%s: go statement with non-trivial arguments not supported", pos(n))
+					}
+				}
+				inner := &ast.CallExpr{Fun: n.Call.Fun, Args: n.Call.Args, Ellipsis: n.Call.Ellipsis}
+				n.Call = &ast.CallExpr{Fun: &ast.FuncLit{Type: &ast.FuncType{Params: &ast.FieldList{}}, Body: &ast.BlockStmt{List: []ast.Stmt{
+					&ast.DeferStmt{Call: call("Recover", str("go@"+pos(n)))},
+					&ast.ExprStmt{X: call("Start", str("go@"+pos(n)), ast.NewIdent(gv))},
+					&ast.ExprStmt{X: inner},
+				}}}}
+				c.Replace(&ast.BlockStmt{List: []ast.Stmt{capture, n}})
 				stats["go-plain"]++
+				changed = true
 			}
 		case *ast.CallExpr:
+			if isPkgCall(n, "time", "AfterFunc") && len(n.Args) == 2 {
+				n.Args[1] = call("Callback", str("afterfunc@"+pos(n)), n.Args[1])
+				stats["afterfunc"]++
+				changed = true
+				return true
+			}
+			if se, ok := n.Fun.(*ast.SelectorExpr); ok && se.Sel.Name == "Wait" && len(n.Args) == 0 {
+				if _, isStmt := c.Parent().(*ast.ExprStmt); !isStmt {
+					if _, isDefer := c.Parent().(*ast.DeferStmt); isDefer {
+						die("%s: deferred Wait() not supported", pos(n))
+					}
+					c.Replace(call("Waited", str("waited@"+pos(n)), n))
+					stats["wait"]++
+					changed = true
+					return true
+				}
+			}
 			// errgroup-style x.Go(func() error {...}): same treatment as a go statement
 			if se, ok := n.Fun.(*ast.SelectorExpr); ok && se.Sel.Name == "Go" && len(n.Args) == 1 {
 				if fl, ok := n.Args[0].(*ast.FuncLit); ok {
-					fl.Body.List = append([]ast.Stmt{
-						&ast.DeferStmt{Call: call("Recover", str("egGo@"+pos(n)))},
-						&ast.ExprStmt{X: call("Yield", str("egGo@"+pos(n)))}}, fl.Body.List...)
+					n.Args[0] = call("WrapE", str("egGo@"+pos(n)), fl)
 					stats["eggo"]++
 					changed = true
 				}
